@@ -1,0 +1,18 @@
+//go:build verif
+
+package snapshot
+
+// Verification hook (build tag verif only): crash-point markers.
+// The harness registers a callback that is invoked, synchronously, at the points of
+// snapshot.go marked with verifCrashPoint("<name>"); it copies the root directory at that instant.
+
+var verifCrashHook func(name string)
+
+// VerifOnCrashPoint registers (or, with nil, removes) the crash-point callback.
+func VerifOnCrashPoint(f func(name string)) { verifCrashHook = f }
+
+func verifCrashPoint(name string) {
+	if h := verifCrashHook; h != nil {
+		h(name)
+	}
+}
